@@ -374,9 +374,13 @@ fn check_weighted(acc: &str, obs: Option<f64>, sp: &PSlot, e: &PairEmb, addonly:
             if obs == want { Verdict::Ok } else { Verdict::Bad(format!("constant data: the weighted mean must be exactly {}, observed {}", fmt_f(want), fmt_f(obs))) }
         }
         "weighted_mean" => {
+            // max|x| over the CONTRIBUTING observations: a zero-weight observation changes only
+            // the unweighted statistics and len() (C08), so it must not widen the envelope either
+            let contrib: Vec<i64> = sp.data.iter().filter(|p| p.1 > 0).map(|p| p.0).collect();
+            let xc = contrib.iter().map(|&v| e.e1.x(v).abs()).fold(0.0f64, f64::max);
             let s = e.e1.a + e.e1.b * r;
             let d = (obs - e.e1.a) - e.e1.b * r;
-            envelope(obs, s, d, 8.0 * n * U * x_max + 4.0 * U * s.abs())
+            envelope(obs, s, d, 8.0 * n * U * xc + 4.0 * U * s.abs())
         }
         "sum_weights" => {
             let s = c * r;
@@ -461,8 +465,7 @@ fn c17_weighted(acc: &str, obs: Option<f64>, sp: &PSlot, e: &PairEmb) -> Option<
             let contrib: Vec<i64> = sp.data.iter().filter(|p| p.1 > 0).map(|p| p.0).collect();
             let lo = e.e1.x(*contrib.iter().min().unwrap());
             let hi = e.e1.x(*contrib.iter().max().unwrap());
-            let all = stat(&sp.xs());
-            let slack = 8.0 * n * U * xmax(&e.e1, &all);
+            let slack = 8.0 * n * U * lo.abs().max(hi.abs());
             match obs {
                 Some(o) if o >= lo - slack && o <= hi + slack => None,
                 o => Some(format!("weighted mean must lie in [{:e}, {:e}] (slack {:e}), observed {:?}", lo, hi, slack, o)),
